@@ -261,6 +261,44 @@ def scan(root, kb, markers, problems):
                 problems.append({'problem': 'plaintext visible at rest', 'what': label, 'where': where[:50]})
 
 
+async def forgetful_backend_run(root, kb, markers, problems):
+    """C05 does not depend on what the backend ANSWERS: a store whose existence check says "no" for objects that were just written
+    (eventual consistency, an object removed by another client) makes replicat upload every occurrence of a repeated chunk; every
+    payload handed to the backend is scanned"""
+    handed = []
+
+    class Forgetful(Local):
+        def exists(self, name):
+            return False if name.startswith('data/') else super().exists(name)
+
+        def upload_stream(self, name, stream, length, chunk_size=128000):
+            data = stream.read()
+            handed.append((name, data))
+            import io as _io
+            return super().upload_stream(name, _io.BytesIO(data), length, chunk_size)
+
+        def upload(self, name, data):
+            handed.append((name, bytes(data)))
+            return super().upload(name, data)
+
+    src = root / 'src_rep'
+    src.mkdir()
+    (src / 'records.bin').write_bytes(b'PLAINTXT' * 80)                    # one record repeated: the same chunk many times in one snapshot
+    (src / 'zeros.bin').write_bytes(bytes(700))
+    r = Repository(Forgetful(root / 'repo'), concurrent=2, quiet=True, cache_directory=None)
+    with lib.quiet():
+        await r.unlock(password=PW, key=kb)
+        await r.snapshot(paths=[src], note='rep')
+    await r.close()
+    # every 8-byte window of the repeated record is one of its rotations: any chunk of 8+ bytes cut from it is recognised
+    forms = [('repeated record', (b'PLAINTXT' * 2)[i:i + 8]) for i in range(8)] + [('run of zero bytes', bytes(48))] + [(l, m) for l, m in markers if len(m) >= 6]
+    for name, data in handed:
+        for label, f in forms:
+            if f in data:
+                problems.append({'problem': 'plaintext handed to the backend', 'what': label, 'object': name[:40], 'backend': 'existence check answers no for fresh objects'})
+                return
+
+
 async def more_runs_then_nonces(root, kb, settings, problems, markers):
     """C05 (no two ciphertexts under one key share a nonce): several further runs, each with a FRESH Repository object as
     the CLI makes them (same tree again, a tree of one empty file, add-key, delete + clean), then every nonce found at
@@ -374,12 +412,33 @@ def main():
                         problems.append({'problem': 'reference cannot open the private section', 'error': f'{type(e).__name__}: {e}'[:120]})
                     scan(root, kb, markers, problems)
                     asyncio.run(more_runs_then_nonces(root, kb, settings, problems, markers))
+                    asyncio.run(forgetful_backend_run(root, kb, markers, problems))
             except Exception as e:
                 import traceback
                 problems.append({'problem': 'exception', 'error': f'{type(e).__name__}: {e}'[:200], 'tb': traceback.format_exc()[-400:]})
             if problems:
                 failures.append({'id': f'read{ci}', 'class': None, 'case': {'direction': 'replicat writes, reference reads', 'settings': settings}, 'detail': problems[:3]})
             samples.append({'direction': 'replicat writes / reference reads', 'config': ci})
+    if prop == 'C14':
+        # files LARGER than the read block of the snapshot stream (16 MiB) and than any queue / window inside snapshot: several hundred
+        # chunks complete while the file is still being read; the recorded ranges must still tile every file
+        big_settings = {'encryption': {'kdf': dict(fast)}, 'chunking': {'min_length': 32768, 'max_length': 65536}}
+        big_files = {'big.bin': random.Random(seed + 5).randbytes(20 * 2 ** 20 + 5), 'tiny': b'7 bytes', 'mid/mid.bin': random.Random(seed + 6).randbytes(2 ** 20 + 1), 'empty': b''}
+        with lib.scratch('vf_c14b_') as root:
+            cases += 1
+            problems = []
+            try:
+                import copy
+                kb, contents, snap = asyncio.run(replicat_writes(root, 99, copy.deepcopy(big_settings), big_files, 'big'))
+                restored = reference_read(root / 'repo', kb, problems)
+                if restored != contents and not problems:
+                    problems.append({'problem': 'the reference reader recovered different files', 'recovered': len(restored), 'expected': len(contents),
+                                     'sizes': {os.path.basename(k): len(v) for k, v in restored.items()}})
+            except Exception as e:
+                import traceback
+                problems.append({'problem': 'exception', 'error': f'{type(e).__name__}: {e}'[:200], 'tb': traceback.format_exc()[-400:]})
+            if problems:
+                failures.append({'id': 'read_big', 'class': None, 'case': {'direction': 'replicat writes, reference reads', 'settings': big_settings, 'file_sizes': [len(v) for v in big_files.values()]}, 'detail': problems[:3]})
     if prop == 'C14':
         for encrypted in (True, False):
             for old in (False, True):
